@@ -2,6 +2,7 @@ import PartituraModel.Wire
 import PartituraModel.Model.Pitch
 import PartituraModel.Model.Conversions
 import PartituraModel.Model.ConversionsArr
+import PartituraModel.Model.ConversionsNum
 
 open Wire Model Gen.C12 Gen.C12L
 
@@ -91,6 +92,12 @@ def handle (ts : List String) : String :=
   | "f2k" :: rest =>
     orErr <| (run (do let f ← int; let m ← orDefault pylit; pure (f, m)) rest).bind fun (f, m) =>
       fifthsModeToKeyNameG f (m.getD f2kDefaultMode)
+  | "f2kn" :: kind :: rest =>
+    -- the number of fifths in any number type: `i` = a type with __index__, `r` = any other real type
+    orErr <| (run (do let q ← rat; let m ← orDefault pylit; pure (q, m)) rest).bind fun (q, m) =>
+      let n : Option PyNum := if kind == "r" then some (PyNum.real q)
+        else if kind == "i" && q.den == 1 then some (PyNum.int q.num) else none
+      n.bind fun n => fifthsModeToKeyNameN n (m.getD f2kDefaultMode)
   | "k2f" :: rest =>
     orErr <| (run str rest).bind fun n =>
       (keyNameToFifthsModeK n).map fun (f, m) => fmtTuple [fmtInt f, modeName m]
